@@ -25,6 +25,10 @@ def term(i, kind="str", prio=None, assoc=None):
     ch = NONASCII.get(LETTERS[i], LETTERS[i])
     if kind == "str":
         text = ch
+    elif kind == "ml":
+        # a multi-line token (string / comment like): everything from the letter to the next ';',
+        # line breaks, blanks and multi-byte characters included
+        return [name, kind, ch + "[^;]*;", ch + " \n" + ch + "\u00e9\n;", prio, assoc]
     else:
         text = ch + "+"
     return [name, kind, text, ch, prio, assoc]
@@ -228,6 +232,10 @@ CURATED = [
     ("self_overlap_rn", G("P: X X | Tx; X: P Tb | ")),
     ("lr_two_null_mid", G("S: Ta B C Td S | Te; B: Tb | ; C: Tc | ")),
     ("regex_terms", G("S: S Ta | Tb", kinds={"a": "re", "b": "re"})),
+    # tokens that contain line breaks
+    ("ml_token_list", G("S: S Tq | Tq", kinds={"q": "ml"})),
+    ("ml_token_expr", G("E: E Tp Tq | Tq; ", kinds={"q": "ml"})),
+    ("ml_token_nullable", G("S: A Tq Tb; A: Ta | ", kinds={"q": "ml"})),
     ("regex_expr", G("E: E Tp E {left, 1} | E Tm E {left, 2} | Tn", kinds={"n": "re"})),
 ]
 
